@@ -25,16 +25,31 @@ pub fn runs_json(runs: &Runs) -> Value {
     Value::Array(runs.iter().map(|(s, l)| json!([s, l])).collect())
 }
 
+/// cum[k] = number of set bits before run k (logged for the logarithmic reference operators).
+pub fn cum_json(runs: &Runs) -> Value {
+    let mut c = 0usize;
+    let mut v: Vec<Value> = Vec::with_capacity(runs.len());
+    for (_, l) in runs.iter() { v.push(json!(c)); c += l; }
+    Value::Array(v)
+}
+
 pub fn ones_of(runs: &Runs) -> usize { runs.iter().map(|r| r.1).sum() }
 
 pub fn positions(runs: &Runs) -> impl Iterator<Item = usize> + '_ {
     runs.iter().flat_map(|(s, l)| *s..(*s + *l))
 }
 
-fn enable_all(mut bv: BitVector) -> BitVector {
-    bv.enable_rank();
-    bv.enable_select();
-    bv.enable_select_zero();
+/// Enables all support structures; the order of the enable_* calls is rotated by `order`.
+fn enable_all(mut bv: BitVector, order: usize) -> BitVector {
+    const PERMS: [[u8; 4]; 6] = [[0, 1, 2, 3], [2, 1, 0, 3], [1, 2, 0, 3], [3, 2, 0, 1], [2, 0, 1, 3], [0, 2, 3, 1]];
+    for step in PERMS[order % 6].iter() {
+        match step {
+            0 => bv.enable_rank(),
+            1 => bv.enable_select(),
+            2 => bv.enable_select_zero(),
+            _ => bv.enable_pred_succ(),
+        }
+    }
     bv
 }
 
@@ -87,7 +102,8 @@ pub fn build(kind: &str, route: &str, len: usize, runs: &Runs) -> AnyBv {
                 "copy_rl" => BitVector::copy_bit_vec(&rl_runs(len, runs)),
                 _ => panic!("TOOL-ERROR: unknown plain route {}", route),
             };
-            AnyBv::Plain(enable_all(bv))
+            let order = PLAIN_ROUTES.iter().position(|r| r == &route).unwrap_or(0);
+            AnyBv::Plain(enable_all(bv, order))
         },
         "sparse" => {
             let sv = match route {
@@ -382,6 +398,29 @@ pub fn plain_regimes(rng: &mut Rng, thorough: bool) -> Vec<(String, usize, Runs)
         let len = rng.range(1 << 17, big);
         out.push((format!("R5.{}", rep), len, clustered(rng, len, 3000, 700)));
     }
+    // R7: evenly spaced ones so that SEVERAL superblocks in a row are long (pointer arithmetic into the
+    // explicit-offset array beyond its first superblock); and the complement for the zeros.
+    for rep in 0..(if thorough { 3 } else { 1 }) {
+        let sbs = rng.range(3, 4);
+        let len0 = 1usize << (18 + rep % 2);
+        let thr = bit_len(len0 * 2).pow(4);
+        let spacing = thr / 4096 + 1 + rng.below(3);
+        let count = sbs * 4096 + rng.below(3000);
+        let len = count * spacing + rng.below(spacing);
+        let runs: Runs = (0..count).map(|i| (i * spacing + (i % 3).min(spacing - 1), 1)).collect();
+        let runs = normalize(len, runs);
+        out.push((format!("R7.{}", rep), len, runs.clone()));
+        out.push((format!("R7-comp.{}", rep), len, complement(len, &runs)));
+        // R8: long superblock(s), then a dense run of short superblocks, then long again.
+        let mut runs2: Runs = (0..5000).map(|i| (i * spacing, 1)).collect();
+        let base = 5000 * spacing + 100;
+        runs2.push((base, 9000));
+        runs2.extend((0..6000).map(|i| (base + 9500 + i * spacing, 1)));
+        let len2 = base + 9500 + 6000 * spacing + 77;
+        let runs2 = normalize(len2, runs2);
+        out.push((format!("R8.{}", rep), len2, runs2.clone()));
+        out.push((format!("R8-comp.{}", rep), len2, complement(len2, &runs2)));
+    }
     // R4: dense uniform.
     for (i, pm) in [10usize, 500, 990].iter().enumerate() {
         let len = if thorough { rng.range(1 << 13, 1 << 15) } else { rng.range(1 << 12, 1 << 13) };
@@ -450,11 +489,11 @@ pub fn record_object(out: &mut TraceOut, rng: &mut Rng, label: &str, kind: &str,
     let bv = match guarded(|| build(kind, route, len, runs)) {
         Ok(b) => b,
         Err(msg) => {
-            out.push(json!({"e": "def", "label": label, "t": kind, "route": route, "len": len, "runs": runs_json(runs), "built": format!("PANIC: {}", msg)}));
+            out.push(json!({"e": "def", "label": label, "t": kind, "route": route, "len": len, "runs": runs_json(runs), "cum": cum_json(runs), "built": format!("PANIC: {}", msg)}));
             return;
         },
     };
-    out.push(json!({"e": "def", "label": label, "t": kind, "route": route, "len": len, "runs": runs_json(runs), "built": "ok",
+    out.push(json!({"e": "def", "label": label, "t": kind, "route": route, "len": len, "runs": runs_json(runs), "cum": cum_json(runs), "built": "ok",
         "obs": [bv.query("len", 0), bv.query("ones", 0), bv.query("zeros", 0)]}));
     let ones = ones_of(runs);
     let pos = position_args(rng, len, runs, extra);
@@ -587,6 +626,23 @@ pub fn rl_regimes(rng: &mut Rng, thorough: bool) -> Vec<(String, usize, Runs)> {
         let last = runs.last().unwrap();
         let len = len.max(last.0 + last.1);
         out.push((format!("L1.{}blocks", blocks), len, normalize(len, runs)));
+    }
+    // L3: many blocks followed by a long tail without any block start: long trailing zeros, or one long
+    // final run (the sample indexes then have thresholds that fall behind the last block).
+    for (k, blocks) in (if thorough { vec![17usize, 20, 30, 40, 100] } else { vec![18usize, 40] }).into_iter().enumerate() {
+        let mut runs: Runs = Vec::new();
+        let mut pos = rng.range(0, 9);
+        for _ in 0..(blocks * 16) {
+            let l = rng.range(9, 60);
+            runs.push((pos, l));
+            pos += l + rng.range(8, 60);
+        }
+        let end = pos;
+        out.push((format!("L3.zeros{}", blocks), end * (2 + k % 3), normalize(end * 4, runs.clone())));
+        let mut r2 = runs.clone();
+        r2.push((end + 5, end * (1 + k % 2) * 2));
+        let len2 = end + 5 + end * (1 + k % 2) * 2 + (k % 2) * 1000;
+        out.push((format!("L3.lastrun{}", blocks), len2, normalize(len2, r2)));
     }
     // L2: values needing 4..10 code units: gaps and lengths 2^9 .. 2^29, blocks closed early.
     for rep in 0..(if thorough { 6 } else { 2 }) {
